@@ -136,6 +136,67 @@ func (o *payloadOracle) checkStores(round string, members []int) {
 	}
 }
 
+// checkExportLikeCLI exports the round's signatures exactly as
+// `dc4bc_cli export_signatures` does (all batches merged into one map keyed by
+// message id, then PrepareSignaturesToDump) on every node that is up, at any
+// moment - also while a batch is still in flight: every exported entry of a
+// proposed message carries the proposed payload and file, and a non-empty
+// signature verifies over that payload.
+func (o *payloadOracle) checkExportLikeCLI(round string, members []int, when string) {
+	w := o.c.W
+	gk, gerr := w.GroupKey(round)
+	// message ids that occur in more than one batch (baked ids) are ambiguous in the merged map
+	count := map[string]int{}
+	want := map[string]ExpMsg{}
+	for _, bid := range o.c.Tr.Order {
+		b := o.c.Tr.Batches[bid]
+		if b.Round != round || len(b.Earlier) > 0 {
+			continue
+		}
+		for _, em := range b.Msgs {
+			count[em.MessageID]++
+			want[em.MessageID] = em
+		}
+	}
+	for _, i := range members {
+		n := w.Nodes[i]
+		if !n.Up() {
+			continue
+		}
+		merged := map[string][]fsmtypes.ReconstructedSignature{}
+		for _, bs := range n.Signatures(round) {
+			for id := range bs {
+				merged[id] = bs[id]
+			}
+		}
+		if len(merged) == 0 {
+			continue
+		}
+		exp, err := utils.PrepareSignaturesToDump(merged)
+		if err != nil {
+			w.Fail("C03", "export-failed", fmt.Sprintf("%s (%s): %v", n.Name, when, err))
+			return
+		}
+		for id, x := range *exp {
+			em, ok := want[id]
+			if !ok || count[id] != 1 || em.Payload == nil {
+				continue
+			}
+			o.entries++
+			if !bytes.Equal(x.Payload, em.Payload) || x.File != em.File {
+				w.Fail("C03", "export-differs", fmt.Sprintf("%s export (%s) of message %q: payload/file differ from the proposal (exported %d bytes, file %q; proposed %d bytes, file %q)", n.Name, when, id, len(x.Payload), x.File, len(em.Payload), em.File))
+				return
+			}
+			if len(x.Signature) > 0 && gerr == nil {
+				if err := VerifyETH(gk, em.Payload, x.Signature); err != nil {
+					w.Fail("C03", "exported-signature-not-over-proposed-payload", fmt.Sprintf("%s export (%s) of message %q: %v", n.Name, when, id, err))
+					return
+				}
+			}
+		}
+	}
+}
+
 func dupIDs(ms []ExpMsg) bool {
 	seen := map[string]bool{}
 	for _, m := range ms {
